@@ -1,4 +1,4 @@
-From Coq Require Import List NArith Bool Lia.
+From Coq Require Import List NArith Arith Bool Lia.
 From RQ Require Import Model.C04 Proofs.C04 Model.C22.
 Import ListNotations.
 Open Scope N_scope.
@@ -57,6 +57,12 @@ Proof.
   - destruct (wal s); [exact H|]. destruct o; cbn; try exact H; discriminate.
 Qed.
 
+Lemma snap_ok_nonempty s : snd (snapshot_step true s POk) = 0 -> snaps (fst (snapshot_step true s POk)) <> [].
+Proof.
+  unfold snapshot_step. destruct (full_due s); [cbn; discriminate|].
+  destruct (wal s); cbn; discriminate.
+Qed.
+
 Lemma restart_log s : log (fst (step s ORestart)) = log s.
 Proof.
   unfold step, step_gen. destruct (restored s) as [r|]; [|reflexivity]. cbn [fst].
@@ -74,18 +80,18 @@ Proof. apply replay_congr. Qed.
 
 (* one step of one node keeps it good for the same d when the operation is not a log entry *)
 Lemma local_step d l s o :
-  (o = OSnap POk \/ o = ORestart) -> good d l s -> good d l (fst (step s o)).
+  ((exists out, o = OSnap out) \/ o = ORestart) -> good d l s -> good d l (fst (step s o)).
 Proof.
   intros Ho (I & Hl & Hlog).
   destruct (step_preserves s o I) as [I' Hl'].
   split; [exact I'|]. split.
-  - eapply cells_eq_trans; [exact Hl'|]. destruct Ho as [-> | ->]; exact Hl.
-  - destruct Ho as [-> | ->].
+  - eapply cells_eq_trans; [exact Hl'|]. destruct Ho as [[out ->] | ->]; exact Hl.
+  - destruct Ho as [[out ->] | ->].
     + unfold step, step_gen. rewrite snapshot_log. exact Hlog.
     + rewrite restart_log. exact Hlog.
 Qed.
 
-Lemma at_node_good d l o : (o = OSnap POk \/ o = ORestart) ->
+Lemma at_node_good d l o : ((exists out, o = OSnap out) \/ o = ORestart) ->
   forall ns i, Forall (good d l) ns -> Forall (good d l) (at_node ns i o).
 Proof.
   intros Ho ns. induction ns as [|s r IH]; intros i F; [destruct i; constructor|].
@@ -193,7 +199,7 @@ Proof.
     - intros L1 r1 E1 Hc. rewrite E in E1. cbn in E1. inversion E1; subst. rewrite Hlog, replay_snoc.
       eapply cells_eq_trans; [|exact He]. apply replay_entry_congr. apply (ci_log _ _ _ CI L r E Hc).
     - intros L1 r1 E1 Hc. rewrite E in E1. cbn in E1. inversion E1; subst. apply Hsn. apply (ci_snap _ _ _ CI L r E Hc). }
-  destruct o as [ks v|cc|cc| |cc|i|i| ]; cbn [cstep cspec_step fst snd].
+  destruct o as [ks v|cc|cc| |cc|i o compact|i| ]; cbn [cstep cspec_step fst snd].
   - (* write *)
     apply (entry_case (OWrite ks v) (EWrite (map (fun q => (q, v)) ks))); auto using cells_eq_refl.
   - (* load *)
@@ -233,18 +239,27 @@ Proof.
     + cbn in Hk. subst k. cbn [Nat.eqb fst snd]. exact CI.
   - (* snapshot on node i *)
     destruct (nth_error (nodes c) i) as [s|] eqn:En; cbn [fst]; [|exact CI].
-    destruct (at_node_head L r i (OSnap POk)) as (L' & r' & E' & HL').
+    destruct (at_node_head L r i (OSnap o)) as (L' & r' & E' & HL').
     assert (HlogL : log L' = log L).
     { destruct HL' as [-> | ->]; [reflexivity|]. unfold step, step_gen. apply snapshot_log. }
     constructor; cbn [nodes compacted].
     + rewrite at_node_length. apply (ci_len _ _ _ CI).
     + rewrite E, E'. eauto.
     + intros L1 r1 E1. rewrite E, E' in E1. inversion E1; subst. rewrite HlogL.
-      apply at_node_good; auto.
-    + intros L1 r1 E1 Hc. rewrite E, E' in E1. inversion E1; subst. rewrite HlogL. apply (ci_log _ _ _ CI L r E Hc).
-    + intros L1 r1 E1 Hc. rewrite E, E' in E1. inversion E1; subst.
-      pose proof (ci_snap _ _ _ CI L r E Hc) as Hne.
-      destruct HL' as [-> | ->]; [exact Hne|]. unfold step, step_gen. apply snapshot_snaps. exact Hne.
+      apply at_node_good; eauto.
+    + intros L1 r1 E1 Hc. rewrite E, E' in E1. inversion E1; subst. rewrite HlogL.
+      apply orb_false_iff in Hc as [Hc _]. apply (ci_log _ _ _ CI L r E Hc).
+    + intros L1 r1 E1 Hc. rewrite E, E' in E1.
+      apply orb_true_iff in Hc as [Hc | Hc].
+      * inversion E1; subst. pose proof (ci_snap _ _ _ CI L r E Hc) as Hne.
+        destruct HL' as [-> | ->]; [exact Hne|]. unfold step, step_gen. apply snapshot_snaps. exact Hne.
+      * (* the leader has just taken a snapshot that compacts its log *)
+        apply andb_true_iff in Hc as [Hc Hout]. apply andb_true_iff in Hc as [Hc Hres].
+        apply andb_true_iff in Hc as [_ Hi]. apply PeanoNat.Nat.eqb_eq in Hi. subst i.
+        destruct o; try discriminate.
+        rewrite E in En. cbn in En. inversion En; subst s.
+        cbn in E'. inversion E'; subst L' r'. inversion E1; subst.
+        apply N.eqb_eq in Hres. unfold step, step_gen in *. apply snap_ok_nonempty. exact Hres.
   - (* restart of node i *)
     destruct (nth_error (nodes c) i) as [s|] eqn:En; cbn [fst]; [|exact CI].
     destruct (at_node_head L r i ORestart) as (L' & r' & E' & HL').
@@ -254,7 +269,7 @@ Proof.
     + rewrite at_node_length. apply (ci_len _ _ _ CI).
     + rewrite E, E'. eauto.
     + intros L1 r1 E1. rewrite E, E' in E1. inversion E1; subst. rewrite HlogL.
-      apply at_node_good; auto.
+      apply at_node_good; eauto.
     + intros L1 r1 E1 Hc. rewrite E, E' in E1. inversion E1; subst. rewrite HlogL. apply (ci_log _ _ _ CI L r E Hc).
     + intros L1 r1 E1 Hc. rewrite E, E' in E1. inversion E1; subst.
       pose proof (ci_snap _ _ _ CI L r E Hc) as Hne.
@@ -313,7 +328,7 @@ Qed.
 (* non-vacuity *)
 Definition v24 (v : N) : list N := map (fun _ => v) universe.
 Example ex_cluster :
-  let ops := [CWrite [1; 2] 1; CSnap 0; CBoot (v24 3); CWrite [2] 4; CJoin; CLoadBad; CLoad (v24 5); CSnap 1; CRestart 1; CJoin; CWrite [1] 6] in
+  let ops := [CWrite [1; 2] 1; CSnap 0 POk false; CBoot (v24 3); CWrite [2] 4; CJoin; CLoadBad; CLoad (v24 5); CWrite [3] 7; CSnap 0 PBlocked false; CSnap 1 PNotInvoked false; CSnap 1 POk false; CSnap 0 POk true; CRestart 1; CJoin; CWrite [1] 6] in
   map (fun s => dump (live s)) (nodes (crun ops)) = [dump (fst (cspec ops)); dump (fst (cspec ops)); dump (fst (cspec ops))]
   /\ get (fst (cspec ops)) 1 = 6 /\ get (fst (cspec ops)) 2 = 5 /\ compacted (crun ops) = true.
 Proof. vm_compute. auto. Qed.
